@@ -48,25 +48,35 @@ def unpack_obs(clause_text, buffer):
     return observe_call(call, canon)
 
 
-_keep = []
+_SHARED = {}
+# data names for the schema/nav path: a plain one and names that BEGIN with a USAGE keyword followed by a hyphen
+# (legal COBOL; estruct re-parses the whole DDE text and the explicit USAGE clause after the name must win)
+NAMES = ["FLD", "COMP-AMOUNT", "BINARY-FLAG", "DISPLAY-TOTAL", "PACKED-DECIMAL-QTY", "COMP-3-TOTAL", "AMOUNT"]
+_count = [0]
 
 
 def nav_obs(usage, pic_text, buffer):
-    """the same field through schema_iter / SchemaMaker / EBCDIC().nav().name().value()"""
+    """the same field through schema_iter / SchemaMaker / EBCDIC().nav().name().value(), through ONE long-lived
+    unpacker for the whole run (as a file's workbook has) and under data names that repeat from schema to schema
+    with different USAGE / PICTURE - state kept on the unpacker across schemas shows up as a wrong value"""
     from lib import observe_call
+    _count[0] += 1
+    name = NAMES[_count[0] % len(NAMES)]
     def call():
         from stingray.cobol_parser import schema_iter
         from stingray.schema_instance import SchemaMaker, EBCDIC, BytesInstance
         # one clause per line: a line reaching column 72 would lose its newline (C07 finding)
         text = ("       01  REC.\n"
-                "           05  FLD\n"
+                f"           05  {name}\n"
                 f"               PIC {pic_text}\n"
                 f"               USAGE {SPELLINGS[usage]}.\n")
         (js,) = list(schema_iter(io.StringIO(text)))
         schema = SchemaMaker.from_json(js)
-        unpacker = EBCDIC()
+        if "u" not in _SHARED:
+            _SHARED["u"] = EBCDIC()
+        unpacker = _SHARED["u"]
         nav = unpacker.nav(schema, BytesInstance(bytes(buffer)))
-        return nav.name("FLD").value()
+        return nav.name(name).value()
     return observe_call(call, canon)
 
 
